@@ -2,8 +2,9 @@
    State = (durable map, in-flight transactions, process up/down).  One StoreSignedVAA call = one transaction with one
    write (key = VaaIDFromVAA(v).Bytes(), value = Marshal(v)) — checked on the source by gen/x_dbstore.py.
    The ENGINE CONTRACT is the definition of [exec] below: a transaction is acknowledged only after it became durable,
-   a crash discards exactly the in-flight transactions (atomically per transaction) and keeps the durable map, reopening
-   after a crash succeeds.  Whether badger honours it for a SIGKILL is not provable here: proofs/CrashKVProofs.v states it
+   a crash discards exactly the in-flight transactions (atomically per transaction) and keeps the durable map; it may leave
+   zero-length log files, each of which makes exactly one badger.Open attempt fail (and is repaired by it); db.Open makes
+   [db_open_attempts] attempts (generated from db.go), so whether reopening succeeds is decided by the extracted loop bound.  Whether badger honours it for a SIGKILL is not provable here: proofs/CrashKVProofs.v states it
    as a Section hypothesis (simulation), and the harness injects the fault on the real engine.
    What IS logic of db.go and is generated from it: the Update error reaches the caller ([db_store_error_propagated]),
    so a success return implies the transaction committed; an unsigned VAA panics before any transaction.
@@ -22,9 +23,10 @@ Record cstate := {
   next : nat;                (* number of transactions started so far *)
   committed : list nat;      (* ghost: transactions that became durable *)
   aborted : list nat;        (* ghost: transactions the engine gave up on (Update returned an error) *)
+  damaged : nat;             (* zero-length memtable / value log files the last kill left in the directory *)
   up : bool }.               (* the process is running with the store open *)
 
-Definition cinit : cstate := {| dur := []; infl := []; next := 0; committed := []; aborted := []; up := true |}.
+Definition cinit : cstate := {| dur := []; infl := []; next := 0; committed := []; aborted := []; damaged := 0; up := true |}.
 
 Inductive ev :=
 | EStart (v : vaa)        (* StoreSignedVAA(v) enters d.db.Update; the transaction gets the next number *)
@@ -33,8 +35,9 @@ Inductive ev :=
 | EAbort (n : nat)        (* the engine gives up on transaction n *)
 | EAck (n : nat)          (* StoreSignedVAA returns nil for transaction n *)
 | EErr (n : nat)          (* StoreSignedVAA returns an error for transaction n *)
-| ECrash                  (* the process is killed *)
-| EReopen                 (* db.Open on the same directory *)
+| ECrash (k : nat)        (* the process is killed; the kill leaves k zero-length log files (creation / deletion cut short) *)
+| EReopen                 (* db.Open on the same directory succeeds *)
+| EReopenFail             (* db.Open on the same directory returns an error *)
 | EGet (i : vid) (res : lres).   (* GetSignedVAABytes(i) returns res *)
 
 Definition nmem (n : nat) (l : list nat) : bool := existsb (Nat.eqb n) l.
@@ -51,7 +54,7 @@ Definition exec (st : cstate) (e : ev) : option cstate :=
   | EStart v =>
     if up st && match sigs v with [] => false | _ => true end then
       Some {| dur := dur st; infl := {| t_id := next st; t_key := key (id_of v); t_val := marshal v |} :: infl st; next := S (next st);
-              committed := committed st; aborted := aborted st; up := true |}
+              committed := committed st; aborted := aborted st; damaged := damaged st; up := true |}
     else None
   | EPanic v =>
     if up st && db_store_panics_unsigned && match sigs v with [] => true | _ => false end then Some st else None
@@ -59,7 +62,7 @@ Definition exec (st : cstate) (e : ev) : option cstate :=
     if up st then
       match find_txn n (infl st) with
       | Some t => Some {| dur := put (dur st) (t_key t) (t_val t); infl := drop_txn n (infl st); next := next st;
-                          committed := n :: committed st; aborted := aborted st; up := true |}
+                          committed := n :: committed st; aborted := aborted st; damaged := damaged st; up := true |}
       | None => None
       end
     else None
@@ -67,7 +70,7 @@ Definition exec (st : cstate) (e : ev) : option cstate :=
     if up st then
       match find_txn n (infl st) with
       | Some t => Some {| dur := dur st; infl := drop_txn n (infl st); next := next st;
-                          committed := committed st; aborted := n :: aborted st; up := true |}
+                          committed := committed st; aborted := n :: aborted st; damaged := damaged st; up := true |}
       | None => None
       end
     else None
@@ -76,12 +79,21 @@ Definition exec (st : cstate) (e : ev) : option cstate :=
     if up st && (nmem n (committed st) || (negb db_store_error_propagated && nmem n (aborted st))) then Some st else None
   | EErr n =>
     if up st && nmem n (aborted st) then Some st else None
-  | ECrash =>
-    if up st then Some {| dur := dur st; infl := []; next := next st; committed := committed st; aborted := aborted st; up := false |}
+  | ECrash k =>
+    if up st then Some {| dur := dur st; infl := []; next := next st; committed := committed st; aborted := aborted st; damaged := k; up := false |}
     else None
+  (* ENGINE CONTRACT for reopening: badger.Open fails on the first zero-length log file it meets and sizes that file while
+     failing; with none left it succeeds.  db.Open makes [db_open_attempts (files present)] attempts (GENERATED from db.go). *)
   | EReopen =>
     if up st then None
-    else Some {| dur := dur st; infl := infl st; next := next st; committed := committed st; aborted := aborted st; up := true |}
+    else if Z.of_nat (damaged st) <? db_open_attempts (Z.of_nat (damaged st)) then
+      Some {| dur := dur st; infl := infl st; next := next st; committed := committed st; aborted := aborted st; damaged := 0; up := true |}
+    else None
+  | EReopenFail =>
+    if up st then None
+    else if Z.of_nat (damaged st) <? db_open_attempts (Z.of_nat (damaged st)) then None
+    else Some {| dur := dur st; infl := infl st; next := next st; committed := committed st; aborted := aborted st;
+                 damaged := damaged st - Z.to_nat (db_open_attempts (Z.of_nat (damaged st))); up := false |}
   | EGet i res =>
     if up st && lres_eqb (get_signed_vaa_bytes (dur st) i) res then Some st else None
   end.
